@@ -563,6 +563,96 @@ def run(ctx):
                              {'cells': cells, 'outs': outs, 'stored': stored},
                              monitor='stored-and-handed-on')
 
+        # ---- E2. a cell changes between a value and an error -----------------
+        # one Evaluator; the input is re-assigned so that the same formula
+        # yields a value, then an error, then a value again; and error values
+        # travel with the model (assigned as objects, deep copy, JSON, extract)
+        import os
+        from vlib import bootstrap, build
+        producers = [
+            ('#DIV/0!', '=1/A1', 4, 0, ('num', 0.25)),
+            ('#NUM!', '=SQRT(A1)', 4, -1, ('num', 2.0)),
+            ('#VALUE!', '=A1+1', 4, 'abc', ('num', 5.0)),
+            ('#N/A', '=IF(A1>0,A1>1,NA())', 4, 0, ('bool', True)),
+            ('#REF!', '=IF(A1>0,"ok",#REF!)', 4, 0, ('text', 'ok')),
+            ('#DIV/0!', '=IF(A1>0,DATE(2020,1,A1),1/0)', 4, 0,
+             ('num', 43834.0)),
+            ('#NAME?', '=IF(A1>0,A2,#NAME?)', 4, 0, ('blank',)),
+        ]
+        scratch = os.path.join(bootstrap.VERIF, 'out', 'c07', 'm.json')
+        for code, formula, good, badv, good_out in producers:
+            cells = {'A1': good, 'B1': formula, 'C1': '=B1+1',
+                     'D1': '=SUM(B1:B1,1)', 'E1': '=ISERROR(B1)',
+                     'F1': '=B1&"x"'}
+            want_err = ('value', ('err', code))
+            try:
+                model = subject.compile_dict(cells)
+            except Exception as e:  # noqa
+                ctx.fail(f'compiling {cells} raised {e!r}', {'cells': cells},
+                         monitor='construction', group='compile')
+                continue
+            ev = Evaluator(model)
+            bad = []
+
+            def state(tag, is_err, ev=ev):
+                outs = {k: subject.outcome_of(
+                    lambda k=k: ev.evaluate('Sheet1!' + k))
+                    for k in ('B1', 'C1', 'D1', 'E1', 'F1')}
+                ctx.event('transition_evaluations', len(outs))
+                if is_err:
+                    for k in ('B1', 'C1', 'D1', 'F1'):
+                        if outs[k] != want_err:
+                            bad.append(f'[{tag}] {k} -> {outs[k]}, expected '
+                                       f'{code}')
+                    if outs['E1'] != ('value', ('bool', True)):
+                        bad.append(f'[{tag}] ISERROR(B1) -> {outs["E1"]}')
+                    st = monitors.norm(ev.get_cell_value('Sheet1!B1'))
+                    if st != ('err', code):
+                        bad.append(f'[{tag}] stored B1 = {st}')
+                else:
+                    ok_b = outs['B1'] == ('value', good_out) or (
+                        good_out[0] == 'num' and outs['B1'][0] == 'value'
+                        and outs['B1'][1][0] in ('num', 'date'))
+                    if not ok_b:
+                        bad.append(f'[{tag}] B1 -> {outs["B1"]}, expected '
+                                   f'{good_out}')
+                    if outs['E1'] != ('value', ('bool', False)):
+                        bad.append(f'[{tag}] ISERROR(B1) -> {outs["E1"]}')
+                    for k in ('C1', 'D1', 'F1'):
+                        if outs[k][0] == 'raised':
+                            bad.append(f'[{tag}] {k} -> {outs[k]}')
+            try:
+                state('first, value', False)
+                ev.set_cell_value('Sheet1!A1', badv)
+                state('input re-assigned: error', True)
+                # the model travels: the stored errors go with it
+                for prov in ('deepcopy', 'json', 'extracted'):
+                    try:
+                        m2 = build.derive(model, prov, scratch)
+                        state(f'{prov} model holding the stored error', True,
+                              ev=Evaluator(m2))
+                    except Exception as e:  # noqa
+                        bad.append(f'[{prov}] deriving the model with a '
+                                   f'stored {code} raised '
+                                   f'{type(e).__name__}: {str(e)[:120]}')
+                ev.set_cell_value('Sheet1!A1', good)
+                state('input re-assigned: value again', False)
+                # an error value assigned to the input as an object
+                ev.set_cell_value('Sheet1!A1', mkerr(code))
+                state('error object assigned to the input A1', True)
+            except Exception as e:  # noqa
+                bad.append(f'sequence raised {type(e).__name__}: '
+                           f'{str(e)[:160]}')
+            ctx.event('stored_error_cases')
+            ctx.case(('transition', code, formula))
+            if bad:
+                ctx.fail(f'cells {cells}, A1 {good!r} -> {badv!r} -> '
+                         f'{good!r}: ' + '; '.join(bad[:4]),
+                         {'cells': cells, 'bad_input': repr(badv),
+                          'problems': bad[:12]},
+                         monitor='stored-and-handed-on',
+                         group=f'transition:{code}:{bad[0][:30]}')
+
         # ---- F. IS*/NA truth table ---------------------------------------
         nonerr = {'number': 1.5, 'zero': 0, 'text': 'abc', 'numtext': '12',
                   'bool': True, 'blank': None}
